@@ -365,6 +365,11 @@ func stableCallee(ctx astmatcher.Ctx, lit ast.Node, fun ast.Expr) bool {
 		if sel == nil || sel.Kind() != types.MethodVal || len(sel.Index()) != 1 {
 			return false
 		}
+		if m := sel.Obj().Pkg(); m != ctx.Pkg.Types && !temporary {
+			// as for functions: whether a method of another user package resolves
+			// depends on which generated files of that package already exist
+			return false
+		}
 		switch x.Type().Underlying().(type) {
 		case *types.Interface:
 			// x.M on a nil interface panics when the method value is created,
